@@ -41,29 +41,33 @@ struct SIMDVector<std::complex<T>, simd_abi::scalar> {
         return *this;
     }
 
-    FASTOR_INLINE void load(const scalar_value_type *data, bool ) {
+    FASTOR_INLINE void load(const scalar_value_type *data, bool Aligned=false) {
+        unused(Aligned);
         value_r = (*data).real();
         value_i = (*data).imag();
     }
-    FASTOR_INLINE void store(scalar_value_type *data, bool ) const {
+    FASTOR_INLINE void store(scalar_value_type *data, bool Aligned=false) const {
+        unused(Aligned);
         data[0] = scalar_value_type(value_r,value_i);
     }
 
-    FASTOR_INLINE void aligned_load(const T *data) {
+    FASTOR_INLINE void aligned_load(const scalar_value_type *data) {
         value_r = (*data).real();
         value_i = (*data).imag();
     }
-    FASTOR_INLINE void aligned_store(T *data) const {
+    FASTOR_INLINE void aligned_store(scalar_value_type *data) const {
         data[0] = scalar_value_type(value_r,value_i);
     }
 
-    FASTOR_INLINE void mask_load(const scalar_value_type *data, uint8_t mask, bool ) {
+    FASTOR_INLINE void mask_load(const scalar_value_type *data, uint8_t mask, bool Aligned=false) {
+        unused(Aligned);
         if (mask != 0x0) {
             value_r = (*data).real();
             value_i = (*data).imag();
         }
     }
-    FASTOR_INLINE void mask_store(scalar_value_type *data, uint8_t mask, bool) const {
+    FASTOR_INLINE void mask_store(scalar_value_type *data, uint8_t mask, bool Aligned=false) const {
+        unused(Aligned);
         if (mask != 0x0) {
             data[0] = scalar_value_type(value_r,value_i);
         }
